@@ -278,6 +278,57 @@ func Localise(n *Node, fails func(n *Node, extra map[string]cty.Value) bool,
 	return r, ex
 }
 
+// WalkBound visits n and every descendant, including the bodies of for expressions / template for
+// directives, which are visited with the iteration variables bound to the first element of the
+// collection (evaluated by evalIn under the bindings collected so far).
+func WalkBound(n *Node, extra map[string]cty.Value, evalIn func(n *Node, extra map[string]cty.Value) (cty.Value, bool), visit func(n *Node, extra map[string]cty.Value)) {
+	if n == nil || n.K == "none" || n.K == "anon" {
+		return
+	}
+	visit(n, extra)
+	for _, ch := range EvaluableChildren(n) {
+		WalkBound(ch, extra, evalIn, visit)
+	}
+	if evalIn == nil {
+		return
+	}
+	for _, b := range binders(n) {
+		var coll cty.Value
+		ok := false
+		func() {
+			defer func() { recover() }()
+			coll, ok = evalIn(b.Sub[0], extra)
+		}()
+		if !ok {
+			continue
+		}
+		coll, _ = coll.Unmark()
+		if !(coll.IsKnown() && !coll.IsNull() && coll.CanIterateElements() && coll.LengthInt() > 0) {
+			continue
+		}
+		it := coll.ElementIterator()
+		it.Next()
+		k, v := it.Element()
+		ex2 := map[string]cty.Value{}
+		for kk, vv := range extra {
+			ex2[kk] = vv
+		}
+		ex2[b.S2] = v
+		if b.N%4 != 0 {
+			ex2[KeyVarNames[b.N%4]] = k
+		}
+		var bodies []*Node
+		if b.K == "for" {
+			bodies = b.Sub[1:]
+		} else {
+			bodies = EvaluableChildren(b.Sub[1])
+		}
+		for _, ch := range bodies {
+			WalkBound(ch, ex2, evalIn, visit)
+		}
+	}
+}
+
 // binders lists the for expressions / template for directives whose bodies are not reachable
 // through EvaluableChildren: n itself, or the directives among the parts of a template.
 func binders(n *Node) []*Node {
